@@ -14,13 +14,16 @@ CLAIMED = {
          "Trusted: TLC, the harness (in-memory transport, strict decoder, scripted handlers, projection). Row payload "
          "fidelity is C09's business; error fields C17's.",
          "TLA+ spec (PgConn) + TLC model checking + TLC trace validation of executions of the real server driven by "
-         "TLC-generated and random behaviours", "4 C05"),
+         "TLC-generated and random behaviours; also TLC trace validation (PgFlow) of conversations recorded from the "
+         "repository's own test suite through the connection recorder hook", "4 C05"),
 }
 CONN_NOTE = ("Trusted: TLC, the harness (in-memory transport whose event log is ordered under one mutex, strict "
              "PostgreSQL v3 decoder, scripted callbacks, per-property projection, own value codecs). Bounds: the constants "
              "of the MC_* config; concrete values are sampled with VERIF_SEED.")
 CONN_TECH = ("TLA+ spec (PgConn) + TLC model checking + TLC trace validation of executions of the real server driven by "
-             "TLC-generated (transition cover) and seeded random behaviours")
+             "TLC-generated (transition cover) and seeded random behaviours; for C01/C05/C06/C10/C12/C13/C19 also TLC "
+             "trace validation (handler-agnostic spec PgFlow) of conversations recorded through the connection recorder "
+             "hook from the repository's own test suite and from the random sessions")
 CLAIMED.update({
  "C06": ("TLC checks on the bounded extended-protocol model (names {'',a} x portals {'',p}, failing/succeeding parsers and "
          "handlers, interleaved simple/oversized/unknown messages) that ReadyForQuery is emitted only for Sync, that a "
